@@ -999,7 +999,7 @@ def run_rt(spec, ctx):
         if ctx.out_of_time():
             return
         ctx.case({"part": "rt", "values": specs})
-        if rt_body(ctx, specs, part) and len(ctx.samples) < ctx.MAX_SAMPLES and len(repr(specs)) < 1500:
+        if rt_body(ctx, specs, part) and ctx.evaluations > 200 and len(ctx.samples) < ctx.MAX_SAMPLES and len(repr(specs)) < 1500:
             ctx.sample({"part": "rt", "values": specs})
 
     test()
